@@ -50,6 +50,10 @@ JOBS = {
         {"kind": "cmd", "name": "fuzz", "cmd": ["fuzz", "--prop", "C01", "--seed", "{seed}", "--tier", "{tier}", "--summary", "{summary}",
                                                "--replay-dir", "{replays}"],
          "quick": {"timeout": 600}, "thorough": {"timeout": 3000}},
+        # the other configuration of the quantifier: coset built WITH its `std` feature (every other job builds it without)
+        {"kind": "cmd", "name": "fuzz-std", "features": "std",
+         "cmd": ["fuzz", "--prop", "C01", "--seed", "{seed}", "--tier", "{tier}", "--summary", "{summary}", "--replay-dir", "{replays}"],
+         "quick": {"timeout": 600}, "thorough": {"timeout": 3000}},
     ],
     "C07": [
         {"module": "MC_FixedPoint", "spec": "Spec", "invariants": ["InvAccepted", "InvFixedPoint", "InvF7", "Emit"],
